@@ -5,7 +5,7 @@ CONSTANTS
   EqVals = {"", "x", "y", "z"}
   ReSyms = {".*", ".+", "", "<x>", "<z>", "<x>|<y>", "<x>|<z>", "|<y>", "(?:<x>)?", "(?:<x>|<y>)?", "<x>.*", ".*<y>", ".*<x>.*", "(?i)<x>", "<x>.+", "(?:<y>|<z>).*"}
   PairEqVals = {""}
-  PairReSyms = {".+", "<x>"}
+  PairReSyms = {".+"}
   MaxMs = 2
   InitFamilies = {"empty"}
   Patterns = {}
@@ -15,6 +15,7 @@ CONSTANTS
   RangeSeq <- R3
   LimitSeq <- L3
   ShardCounts = {}
+  EmptyName = TRUE
   Mode = "mc"
   EmitMode = "class"
 VIEW View
